@@ -257,6 +257,46 @@ VIEWS["call_paths"] = View("call_paths", FILE, lambda L, k: N.call_paths(L.get_c
 _simple("external_symbol_ids", FILE, "get_method_external_symbol_id_collection", N.id_set)
 
 
+CLS = {
+    "gir": "UnitGIRLoader", "scope_hierarchy": "ScopeHierarchyLoader", "export_symbols": "UnitIDToExportSymbolsLoader",
+    "decl_summary": "UnitSymbolDeclSummaryLoader", "symbol_name_to_decl_ids": "SymbolNameToDeclIDsLoader",
+    "class_members": "ClassIDToMembersLoader", "cfg": "CFGLoader", "used_symbols": "MethodSymbolToUsedLoader",
+    "max_gir_id": "UniqueSymbolIDAssignerLoader", "module_symbols": "ModuleSymbolsLoader",
+    "unit_to_stmt_ids": "UnitIDToStmtIDLoader", "stmt_to_unit": "UnitIDToStmtIDLoader",
+    "method_name": "MethodIDToMethodNameLoader", "name_to_methods": "MethodIDToMethodNameLoader",
+    "class_name": "ClassIdToNameLoader", "name_to_classes": "ClassIdToNameLoader",
+    "stmt_to_scope": "StmtIDToScopeIDLoader", "entry_points": "EntryPointsLoader", "import_graph": "ImportGraphLoader",
+    "import_nodes": "ImportGraphLoader", "import_deps": "ImportGraphLoader", "methods_in_class": "ClassIDToMethodsLoader[inherited]",
+    "type_graph": "TypeGraphLoader", "method_decl_format": "MethodIDToMethodDeclFormatLoader",
+    "call_stmt_format": "CallStmtIDToCallFormatInfoLoader", "internal_callees": "MethodInternalCalleesLoader",
+    "def_use_summary": "MethodDefUseSummaryLoader", "call_graph_p1": "CallGraphLoader", "call_graph_p2": "CallGraphLoader",
+    "grouped_methods": "GroupedMethodsLoader", "summary_template": "MethodSummaryLoader",
+    "summary_instance": "MethodSummaryLoader(instance)", "call_paths": "CallPathLoader",
+    "external_symbol_ids": "ExternalSymbolIDCollectionLoader",
+}
+for _f in list(VIEWS):
+    if _f in CLS:
+        continue
+    if _f.startswith("stmt_status"):
+        CLS[_f] = "StmtStatusLoader"
+    elif _f.startswith("space"):
+        CLS[_f] = "SymbolStateSpaceLoader"
+    elif _f.startswith("defined_symbols"):
+        CLS[_f] = "MethodSymbolToDefinedLoader"
+    elif _f.startswith("defined_states"):
+        CLS[_f] = "MethodStateToDefinedLoader"
+    elif "bitvec" in _f:
+        CLS[_f] = "BitVectorManagerLoader"
+    elif _f.startswith("param_mapping"):
+        CLS[_f] = "CalleeParameterMapping"
+    elif _f.startswith("symbol_graph"):
+        CLS[_f] = "SymbolGraphLoader"
+    elif _f.startswith("sfg"):
+        CLS[_f] = "StateFlowGraphLoader"
+    else:
+        CLS[_f] = "OneToManyMapLoader"
+
+
 def _kv(family, norm, unit_arg=False):
     def upd(model, a):
         model[(family, a[0])] = norm(a[1], a[0]) if unit_arg else norm(a[1])
@@ -437,7 +477,8 @@ class Recorder:
 
 
 def _read(view_obj, loader, key):
-    """-> ('ok', normal form) | ('exc', 'Type@function')"""
+    """-> ('ok', normal form) | ('exc', 'exception:Type@function[detail]')"""
+    import re
     out, err = io.StringIO(), io.StringIO()
     try:
         with contextlib.redirect_stdout(out), contextlib.redirect_stderr(err):
@@ -447,7 +488,20 @@ def _read(view_obj, loader, key):
             raise
         tb = traceback.extract_tb(e.__traceback__)
         fn = next((f.name for f in reversed(tb) if "/lian/" in f.filename), tb[-1].name if tb else "?")
-        return "exc", "%s@%s" % (type(e).__name__, fn)
+        detail = ""
+        if isinstance(e, SystemExit):
+            m = re.findall(r'Failed to find column \\?"(\w+)', err.getvalue() + out.getvalue())
+            detail = "[no-column:%s]" % (m[-1] if m else "?")
+            try:        # the other root cause of the same message: a bundle written without rows
+                import pandas as pd
+                for sub in loader._all_loaders:
+                    if type(sub).__name__ == CLS.get(view_obj.family) and key in getattr(sub, "item_id_to_bundle_id", {}):
+                        b = sub.item_id_to_bundle_id[key]
+                        if b >= 0 and os.path.exists(sub.get_bundle_path(b)) and len(pd.read_feather(sub.get_bundle_path(b))) == 0:
+                            detail = "[empty-bundle]"
+            except Exception:
+                pass
+        return "exc", "exception:%s@%s%s" % (type(e).__name__, fn, detail)
 
 
 def run_program(name, enable_p2, max_rows=None):
@@ -478,6 +532,16 @@ def run_program(name, enable_p2, max_rows=None):
             finally:
                 L.Loader.__init__ = orig_init
         if res.exc is not None:
+            if max_rows is not None:
+                # with the default row limit the same project is analysed without error: the pipeline cannot consume
+                # what the loader returns once a bundle has been exported in mid-run
+                e = res.exc
+                tb = traceback.extract_tb(e.__traceback__)
+                fn = next((f.name for f in reversed(tb) if "/lian/" in f.filename), tb[-1].name if tb else "?")
+                result["discrepancies"].append((("C15", "pipeline", "bundle-rollover", "exception:%s@%s" % (type(e).__name__, fn)),
+                                                "real/%s: with MAX_ROWS=%d the analysis dies with %r" % (name, max_rows, e), case))
+                result["stats"]["keys"] = 0
+                return result
             result["error"] = "analysis of %s failed: %r\n%s" % (name, res.exc, res.stderr[-600:])
             return result
         if rec.errors:
@@ -497,6 +561,23 @@ def run_program(name, enable_p2, max_rows=None):
         result["stats"]["restore_output"] = (out.getvalue() + err.getvalue())[-400:]
         n_keys = n_inproc_bad = n_restore_bad = 0
         families = {}
+
+        def report(family, key, phase, expected, got):
+            cls = CLS[family]
+            if got == EMPTY:
+                result["discrepancies"].append((("C15", cls, phase, "lost"),
+                                                "real/%s key=%r: %s returns nothing" % (family, key, phase), case))
+                return
+            diffs = N.diff_paths(expected, got, limit=40)
+            seen = set()
+            for pth, how in diffs:
+                kind = "field:" + N.field_of(pth, how)
+                if kind in seen:
+                    continue
+                seen.add(kind)
+                result["discrepancies"].append((("C15", cls, phase, kind),
+                                                "real/%s key=%r: %s differs from what was saved at %s %s" % (family, key, phase, pth, how), case))
+
         for (family, key), expected in sorted(rec.model.items(), key=lambda kv: (kv[0][0], str(kv[0][1]))):
             v = VIEWS[family]
             n_keys += 1
@@ -509,29 +590,20 @@ def run_program(name, enable_p2, max_rows=None):
                 expected = got
             elif st == "exc":
                 n_inproc_bad += 1
-                result["discrepancies"].append(((("C15", "real", family, "inproc", "exception:" + got)),
-                                                "%s key=%r: in-process read raised %s" % (family, key, got), case))
-                continue
+                result["discrepancies"].append((("C15", CLS[family], "read", got),
+                                                "real/%s key=%r: in-process read raised %s" % (family, key, got), case))
             elif got != expected:
                 n_inproc_bad += 1
-                d = N.diff_paths(expected, got)
-                result["discrepancies"].append((("C15", "real", family, "inproc", "field:" + N.diff_kind(expected, got)),
-                                                "%s key=%r: in-process read differs from what was saved at %s" % (family, key, d[:3]), case))
+                report(family, key, "read", expected, got)
                 # what was saved is still what the files must give back
             st, got2 = _read(v, fresh, key)
             if st == "exc":
                 n_restore_bad += 1
-                result["discrepancies"].append((("C15", "real", family, "restore", "exception:" + got2),
-                                                "%s key=%r: read from a fresh loader raised %s" % (family, key, got2), case))
+                result["discrepancies"].append((("C15", CLS[family], "restore", got2),
+                                                "real/%s key=%r: read from a fresh loader raised %s" % (family, key, got2), case))
             elif got2 != expected:
                 n_restore_bad += 1
-                if got2 == EMPTY:
-                    kind = "lost"
-                else:
-                    kind = "field:" + N.diff_kind(expected, got2)
-                what = "%s key=%r: fresh loader after restore returns %s" % (
-                    family, key, "nothing" if got2 == EMPTY else "different content at %s" % N.diff_paths(expected, got2)[:3])
-                result["discrepancies"].append((("C15", "real", family, "restore", kind), what, case))
+                report(family, key, "restore", expected, got2)
         result["stats"].update({"keys": n_keys, "inproc_bad": n_inproc_bad, "restore_bad": n_restore_bad,
                                 "families": families})
         return result
